@@ -69,7 +69,7 @@ def judge(items, accept, exp_type, exp_v, nonint, also_hex=True):
         except Exception as e:
             return 'wrong-exception/%s' % type(e).__name__, '%r from from_bytes(%r)' % (e, arg)
         if not accept:
-            return 'accepts-invalid', 'returned %r for input %r' % (m, arg)
+            return 'accepts-invalid', 'returned %s for input %r' % (core.srepr(m), arg)
         try:
             back = list(m.bytes())
         except Exception as e:
@@ -80,7 +80,7 @@ def judge(items, accept, exp_type, exp_v, nonint, also_hex=True):
         got = {k: (tuple(v) if k == 'data' else v) for k, v in vars(m).items()
                if k not in ('type', 'time')}
         if m.type != exp_type or got != exp or m.time != 0:
-            return 'wrong-message', 'decoded %r expected %s %r' % (m, exp_type, exp)
+            return 'wrong-message', 'decoded %s expected %s %r' % (core.srepr(m), exp_type, exp)
     if allbytes and also_hex:
         hx = ' '.join('%02x' % x for x in items)
         try:
@@ -92,9 +92,9 @@ def judge(items, accept, exp_type, exp_v, nonint, also_hex=True):
             return 'wrong-exception/hex/%s' % type(e).__name__, repr(e)
         else:
             if not accept:
-                return 'accepts-invalid/hex', 'from_hex returned %r' % (m,)
+                return 'accepts-invalid/hex', 'from_hex returned %s' % (core.srepr(m),)
             if list(m.bytes()) != list(items):
-                return 'not-reproduced/hex', repr(m)
+                return 'not-reproduced/hex', core.srepr(m)
     return None
 
 
@@ -266,7 +266,8 @@ def run(ctx):
             type_, v, bs = c01.parse_row(core.ints_of(line))
             if len(bs) <= 3:
                 bm[_idx(bs)] = 1
-        nocfg = c01.THOROUGH_CFG.replace('SysexMaxLen = 4', 'SysexMaxLen = 1')
+        nocfg = c01.THOROUGH_CFG.replace('SysexMaxLen = 4', 'SysexMaxLen = 1').replace(
+            'SysexAlpha = {0,1,127}', 'SysexAlpha <- FullData')
         res = core.run_tlc('WireMsgs', nocfg, on_emit=on_emit, raw_ints=True, timeout=3000)
         ctx.add_tlc(res, 'WireMsgs accepted set {Encode(m)}')
         _BITMAP = bm
